@@ -575,6 +575,53 @@ func traceFields(o opts) error {
 				third = "documented-pattern:" + res
 			}
 		}
+		// ... and a store with lookups disabled that knows two of the four names: Apply reports the
+		// two it cannot fill, and fills the two it can
+		if h%4 == 1 {
+			type partT struct {
+				Zeta  string `setec:"zeta"`
+				Alpha []byte `setec:"alpha"`
+				Mid   string `setec:"mid"`
+				Beta  string `setec:"beta"`
+			}
+			var v partT
+			res := "ok"
+			func() {
+				defer func() {
+					if p := recover(); p != nil {
+						res = "panic:" + hx(fmt.Sprint(p))
+					}
+				}()
+				cx := context.Background()
+				m := &mapSvc{vals: map[string][]byte{}}
+				for _, n := range []string{"zeta", "alpha", "mid", "beta"} {
+					m.vals[join(n)] = []byte("value-of-" + n)
+				}
+				f, err := setec.ParseFields(&v, prefix)
+				if err != nil {
+					res = "-"
+					return
+				}
+				st5, err := setec.NewStore(cx, setec.StoreConfig{Client: m, Secrets: []string{join("zeta"), join("mid")}, PollInterval: -1, Logf: func(string, ...any) {}})
+				if err != nil {
+					res = "-"
+					return
+				}
+				defer st5.Close()
+				aerr := f.Apply(cx, st5)
+				switch {
+				case aerr == nil:
+					res = "noerror"
+				case v.Zeta != "value-of-zeta" || v.Mid != "value-of-mid":
+					res = fmt.Sprintf("unfilled:zeta=%s:mid=%s:err=%s", hx(v.Zeta), hx(v.Mid), hx(aerr.Error()))
+				case len(v.Alpha) != 0 || v.Beta != "":
+					res = "filled-without-lookup"
+				}
+			}()
+			if res != "ok" && res != "-" && (third == "ok" || third == "-") {
+				third = "lookups-disabled:" + res
+			}
+		}
 		var svcNames []string
 		for n, v := range svc.vals {
 			svcNames = append(svcNames, hx(n)+"="+hb(v))
